@@ -54,7 +54,7 @@ contract(_C + "_populate_node_xyz", props=["C04", "C08"],
 _XYZs = _XYZ.replace("grid._ds", "self._ds")
 _LL_RADs = _LL_RAD.replace("grid._ds", "self._ds")
 for _p in ("node_lon", "node_lat"):
-    contract(_G + _p, props=["C04", "C08"],
+    contract(_G + _p, props=["C04", "C08", "C20"],
              params={"self": "obj('Grid', attrs='dict')"}, returns="opaque",
              # the grid has node positions in at least one form
              requires=["(has(self._ds, 'node_lon') and has(self._ds, 'node_lat')) or "
